@@ -58,7 +58,7 @@ def gen_table(rng, family, base):
         return K
     if family == "small":
         K = {}
-        for _ in range(rng.randint(1, 6)):
+        for _ in range(rng.choice((0, 1, 2, 3, 4, 5, 6))):      # 0: a table with nothing but '?' 
             K[key_of(rng.choice(COMMON), rng.choice((0, 0, 0, 1, -1)))] = rng.choice((0, 1, 1, 2, 3, 4, 5, 6))
         K["?"] = rng.randint(0, 9)
         return _shuffle_q(rng, K)
